@@ -49,6 +49,7 @@ func biasFor(prop, tier string) gBias {
 		b.DeferCallTpl = true
 		b.PDefer = 12
 		b.Wildcards = true
+		b.DynVars = true
 		b.FailSibling = true
 		b.PDedup = 40
 		b.FailMix = true // "returns only after ..." matters most when the call fails and the caller carries on
